@@ -195,7 +195,8 @@ pub fn history(cfg: &Cfg, rep: &mut Report, h: u64, steps: usize, mode: Mode, of
                     targets.extend([*l, *l + 1]);
                 }
             }
-            let t = (*rng.pick(&targets)).max(cur0 + 1);
+            // (rarely far beyond every lifetime extension: shares and assets must not lapse)
+            let t = if rng.chance(1, 10) { cur0 + 600_000 } else { (*rng.pick(&targets)).max(cur0 + 1) };
             v.w.set_ledger(t);
             rep.op(format!("ledger -> {t}"));
             pre = v.observe();
